@@ -30,6 +30,8 @@ def script_of(h):
         if a.startswith("new"):
             n += 1
             op = "wnew:o%d:/obj/w%s" % (n, a[3:])
+        elif a.startswith("li"):
+            op = "wldi:" + a[2:]
         elif a.startswith("ld"):
             op = "wld:" + a[2:]
         elif a.startswith("mv"):
@@ -92,6 +94,8 @@ def project(ex):
             # operation in progress was abandoned without its LPC-level result being logged
             out.append({"e": "Raise"})
             # a clone in progress whose create() failed never reports CreateRes with an object
+        elif e == "LoadInherit":
+            out.append({"e": "LoadInherit", "got": ev["got"], "same": ev["same"], "copies": ev["copies"]})
         elif e == "LoadNamed":
             out.append({"e": "LoadNamed", "mode": ev["mode"], "got": ev["got"], "ran": ev["ran"], "found": ev["found"]})
         elif e == "View":
